@@ -466,6 +466,12 @@ def require_obligations(chk):
         ast.unparse(locate_call.args[0]) == 'require_path_str' and \
         'reqd_filepath = _locate_require_file(' in txt and ast.unparse(opened.args[0]) == 'reqd_filepath' and \
         ast.unparse(opened.args[1]) == "'rb'"
+    # EVERY lookup is made with the filtered string itself, which is bound once
+    all_locates = [c for c in ast.walk(fn.node) if isinstance(c, ast.Call) and ast.unparse(c.func) == '_locate_require_file']
+    binds = [n for n in ast.walk(fn.node) if isinstance(n, (ast.Assign, ast.AugAssign, ast.AnnAssign)) and
+             any(isinstance(t, ast.Name) and isinstance(t.ctx, ast.Store) and t.id in ('require_path_str', 'require_path')
+                 for t in ast.walk(n.targets[0] if isinstance(n, ast.Assign) else n.target))]
+    ok_shape = ok_shape and all(c.args and ast.unparse(c.args[0]) == 'require_path_str' for c in all_locates) and len(binds) == 1
     # no other file access in _evaluate_require
     others = [ast.unparse(c.func) for c in ast.walk(fn.node) if isinstance(c, ast.Call) and ast.unparse(c.func) in FILE_PROBES and c is not opened]
     res.append(('SHAPE:require/_evaluate_require opens only the path returned by _locate_require_file(require_path_str, ...), after the filter '
@@ -558,7 +564,8 @@ def under(root, p):
     p = os.path.realpath(p)
     return p == root or p.startswith(root + os.sep)
 bad, n = [], 0
-frag = ['inc', 'x', 'm', '.', '..', '/', 'sub/', '../', 'projX/', '../projX/', '../outside/', work + '/outside/', '?', ';', 'X', '.lua', 'libX/', '../libX/']
+frag = ['inc', 'x', 'm', '.', '..', '/', 'sub/', '../', 'projX/', '../projX/', '../outside/', work + '/outside/', '?', ';', 'X', '.lua', 'libX/', '../libX/',
+        work.replace('/', '.') + '.outside.', work.replace('/', '\\') + '\\outside\\', '..outside.']      # other separator spellings of a path that leaves the roots
 def strings(maxn):
     seen = set()
     for k in range(1, maxn + 1):
@@ -655,7 +662,7 @@ def run(tier, seed):
         results += rq
     except (NotImplementedError, effects.TooManyPaths) as e:
         chk.undecide('a function left the subset of the path analysis: %r' % (e,))
-        return chk.finish()
+        results = []              # the bounded run below still decides what it can
     nat = native(3 if tier == 'thorough' else 2)
     if nat.get('timeout') or nat.get('error'):
         chk.undecide('BOUNDED:c12/native run did not finish: %s' % (nat.get('error') or 'timeout'))
